@@ -355,7 +355,10 @@ def getattr_(it, obj, name, node=None, default=None, has_default=False):
 
     if isinstance(obj, Obj):
         if name in obj.attrs:
-            return obj.attrs[name]
+            v = obj.attrs[name]
+            if hasattr(v, "vc_read"):
+                return v.vc_read(it, obj, name)      # volatile attribute (another thread may change it)
+            return v
         if obj.module is not None:
             try:
                 fn = obj.module.find(f"{obj.cls}.{name}")
@@ -406,6 +409,9 @@ def getattr_(it, obj, name, node=None, default=None, has_default=False):
         key = f"{rf.qualname}.{name}"
         if key in it.env_over:
             return it.env_over[key]
+        helper = decorator_helper(it, rf, name)
+        if helper is not None:
+            return helper
         if name in it.env_over.get("__funcattrs__", {}):
             return it.env_over["__funcattrs__"][name](it, obj)
         raise Unsupported(f"attribute {name} of function {rf.qualname}")
@@ -464,7 +470,32 @@ def getattr_(it, obj, name, node=None, default=None, has_default=False):
     return missing()
 
 
+def decorator_helper(it, rf, name):
+    """attributes a decorator attaches to its wrapper (wrapper.cache_activate = cache_activate):
+    resolved to the real nested def of the decorator function"""
+    node = getattr(rf, "node", None)
+    if node is None or not getattr(node, "decorator_list", None):
+        return None
+    for d in node.decorator_list:
+        dn = ast.unparse(d)
+        for m in (rf.module, it.repo_module("_common")):
+            st = m.toplevel(dn)
+            if isinstance(st, ast.FunctionDef):
+                # wrapper.<name> = <helper>
+                for s_ in st.body:
+                    if isinstance(s_, ast.Assign) and isinstance(s_.targets[0], ast.Attribute) and \
+                            s_.targets[0].attr == name and isinstance(s_.value, ast.Name):
+                        for h in st.body:
+                            if isinstance(h, ast.FunctionDef) and h.name == s_.value.id:
+                                clo = Frame(RepoFunc(m, dn, st), {}, None)
+                                return RepoFunc(m, f"{dn}.<locals>.{h.name}", h, closure=clo)
+                break
+    return None
+
+
 def setattr_(it, obj, name, v, node=None):
+    if isinstance(obj, Obj) and hasattr(obj.attrs.get(name), "vc_write"):
+        return obj.attrs[name].vc_write(it, obj, name, v)
     if isinstance(obj, Obj):
         fz = it.ctx.ghost.get("__frozen_attrs__", {}).get(id(obj))
         if fz is not None and name in fz:
@@ -481,6 +512,8 @@ def setattr_(it, obj, name, v, node=None):
 
 
 def delattr_(it, obj, name, node=None):
+    if isinstance(obj, Obj) and hasattr(obj.attrs.get(name), "vc_delete"):
+        return obj.attrs[name].vc_delete(it, obj, name)
     if isinstance(obj, Obj):
         if name not in obj.attrs:
             it.raise_(AttributeError, name)
